@@ -5,6 +5,7 @@ package models
 import (
 	"context"
 	"sync"
+	"time"
 )
 
 type strErr struct{ s string }
@@ -144,3 +145,36 @@ func WithCancel(parent context.Context) (context.Context, context.CancelFunc) {
 
 // NotTemporary models drpcserver.isTemporary for harness errors (none implements Temporary()).
 func NotTemporary(err error) bool { return false }
+
+// ---- timers ----
+
+type timerState struct{ fired, stopped bool }
+
+var timers = map[*time.Timer]*timerState{}
+
+// AfterFunc models time.AfterFunc: the callback runs on its own goroutine at an arbitrary
+// later moment (the duration is not interpreted) unless stopped before it started.
+func AfterFunc(d time.Duration, f func()) *time.Timer {
+	t := new(time.Timer)
+	st := &timerState{}
+	timers[t] = st
+	go func() {
+		if st.stopped {
+			return
+		}
+		st.fired = true
+		f()
+	}()
+	return t
+}
+
+// TimerStop models (*time.Timer).Stop: false iff the callback has already started (or the
+// timer was already stopped).
+func TimerStop(t *time.Timer) bool {
+	st := timers[t]
+	if st == nil || st.fired || st.stopped {
+		return false
+	}
+	st.stopped = true
+	return true
+}
